@@ -55,7 +55,8 @@ func genC13(rt *rapid.T) c13Params {
 	b := rapid.Int64Range(0, total-a).Draw(rt, "dev")
 	p.Staker, p.Dev, p.Provider = a, b, total-a-b
 	p.Denom = rapid.SampledFrom([]string{"ujkl", "ujkl", "ujkl", "", "uother"}).Draw(rt, "denom")
-	p.Stipend = rapid.SampledFrom([]int{chain.AccStipend, 0, 1}).Draw(rt, "stipend")
+	// -1: the stipend goes to the developer-grants pool itself (one account, two shares); -2: a 32-byte address
+	p.Stipend = rapid.SampledFrom([]int{chain.AccStipend, chain.AccStipend, 0, 1, -1, -1, -2}).Draw(rt, "stipend")
 	p.Blocks = rapid.IntRange(1, 60).Draw(rt, "blocks")
 	if rapid.IntRange(0, 39).Draw(rt, "longRun") == 0 {
 		p.Blocks = rapid.IntRange(1000, 1100).Draw(rt, "blocksLong")
@@ -68,7 +69,7 @@ func genC13(rt *rapid.T) c13Params {
 // c13Run executes the run and returns "" or (sig, message).
 func c13Run(c *chain.Chain, p c13Params, rec *ev.Rec) (sig, msg string, reachedLow bool) {
 	f := c.Fork(p.StartHeight-1, chain.GenesisTime)
-	mp := minttypes.NewParams(p.Denom, p.Dev, p.TokensPerBlock, p.Staker, p.MintDecrease, chain.Acc(p.Stipend).Bech, p.Provider)
+	mp := minttypes.NewParams(p.Denom, p.Dev, p.TokensPerBlock, p.Staker, p.MintDecrease, c13StipendAddr(p.Stipend), p.Provider)
 	if err := mp.Validate(); err != nil {
 		return "C13/harness", "generated params rejected: " + err.Error(), false
 	}
@@ -82,7 +83,7 @@ func c13Run(c *chain.Chain, p c13Params, rec *ev.Rec) (sig, msg string, reachedL
 	devAddr, err := mintkeeper.GetDevGrantsAccount()
 	must(err)
 	dev := devAddr.String()
-	stipend := chain.Acc(p.Stipend).Bech
+	stipend := c13StipendAddr(p.Stipend)
 
 	prevE := big.NewInt(p.TokensPerBlock)
 	floorPct := func(e *big.Int, pct int64) *big.Int {
@@ -162,6 +163,18 @@ func c13Run(c *chain.Chain, p c13Params, rec *ev.Rec) (sig, msg string, reachedL
 		prevE = E
 	}
 	return "", "", reachedLow
+}
+
+func c13StipendAddr(i int) string {
+	switch i {
+	case -1:
+		a, err := mintkeeper.GetDevGrantsAccount()
+		must(err)
+		return a.String()
+	case -2:
+		return sdk.AccAddress(bytes32(0x31)).String()
+	}
+	return chain.Acc(i).Bech
 }
 
 func c13Name(addr, fee, dev, stip, mod string) string {
